@@ -224,7 +224,7 @@ func (c *CheckCtx) finish() int {
 		c.failures = append(c.failures, f)
 	}
 	sort.Slice(c.failures, func(i, j int) bool { return c.failures[i].Name < c.failures[j].Name })
-	violations := 0
+	violations, refuted := 0, 0
 	knownMatched := []string{}
 	for i, f := range c.failures {
 		for _, k := range known {
@@ -244,6 +244,9 @@ func (c *CheckCtx) finish() int {
 			continue
 		}
 		violations++
+		if f.Obl != nil && f.Obl.Result == "sat" {
+			refuted++
+		}
 		path := filepath.Join(replayDir, fmt.Sprintf("%02d_%s.txt", i, safeName.ReplaceAllString(f.Name, "_")))
 		if len(path) > 200 {
 			path = path[:200] + ".txt"
@@ -322,6 +325,10 @@ func (c *CheckCtx) finish() int {
 	os.WriteFile(filepath.Join(outputDir, "evidence", id+".json"), data, 0o644)
 	fmt.Printf("property=%s tier=%s functions=%d obligations=%d discharged=%d failed=%d known=%d violations=%d wall=%.1fs\n",
 		id, c.tier, len(funcs), len(c.obls), discharged, len(c.failures), len(knownMatched), violations, time.Since(c.start).Seconds())
+	if violations > 0 && c.bounded == nil {
+		// how the back ends answered: a model of the negated obligation (refuted) or no answer within the limits
+		fmt.Printf("verdicts: refuted-by-a-model=%d no-answer-within-the-limit=%d\n", refuted, violations-refuted)
+	}
 	for _, m := range c.machineryErrors {
 		fmt.Println("MACHINERY-ERROR:", m)
 	}
